@@ -209,7 +209,7 @@ Lemma get_s_spec buf pos len :
   (2 <= len <= 64)%nat -> (pos + len <= 8 * length buf)%nat ->
   get_s buf pos len = Ok (Z_of_bits_2c (slice (bits_of buf) pos len)).
 Proof.
-  intros Hl Hr. unfold get_s.
+  intros Hl Hr. unfold get_s, get_s_gen.
   rewrite !get_u_spec by lia. cbn [bind].
   destruct len as [|len]; [lia|].
   destruct (nth_error (bits_of buf) pos) as [s|] eqn:E.
@@ -267,3 +267,77 @@ Proof.
   - rewrite !get_u_spec by lia. rewrite E. reflexivity.
   - intros H. rewrite !get_s_spec by lia. rewrite E. reflexivity.
 Qed.
+
+(* ---- the windowed readers equal the bit-serial ones ---- *)
+
+Lemma fold_bstep_mod bs : forall a,
+  fold_left bstep bs (a mod two64) mod two64 = fold_left bstep bs a mod two64.
+Proof.
+  induction bs as [|b bs IH]; intros a; cbn [fold_left].
+  - apply N.mod_mod. discriminate.
+  - rewrite <- (IH (bstep (a mod two64) b)), <- (IH (bstep a b)). f_equal. f_equal.
+    unfold bstep. rewrite <- N.add_mod_idemp_l, N.mul_mod_idemp_r by discriminate.
+    rewrite N.add_mod_idemp_l by discriminate. reflexivity.
+Qed.
+
+Lemma get_u_loop_wrap buf : forall len i acc,
+  (i + len <= 8 * length buf)%nat ->
+  get_u_loop buf i len acc =
+  Ok (match len with O => acc | _ => fold_left bstep (slice (bits_of buf) i len) acc mod two64 end).
+Proof.
+  induction len as [|len IH]; intros i acc Hr; [reflexivity|].
+  cbn [get_u_loop].
+  destruct (nth_error (bits_of buf) i) as [b|] eqn:E.
+  2:{ apply nth_error_None in E. rewrite bits_of_length in E. lia. }
+  rewrite <- nth_bits_of, E, (slice_S _ _ _ _ E). cbn [fold_left].
+  rewrite IH by lia. f_equal. fold (bstep acc b).
+  destruct len as [|len].
+  - rewrite slice_0. reflexivity.
+  - apply fold_bstep_mod.
+Qed.
+
+(* unsigned extraction for any width: the addressed bits modulo 2^64 *)
+Lemma get_u_spec_wrap buf pos len : (pos + len <= 8 * length buf)%nat ->
+  get_u buf pos len = Ok (N_of_bits (slice (bits_of buf) pos len) mod two64).
+Proof.
+  intros Hr. unfold get_u. rewrite get_u_loop_wrap by exact Hr.
+  destruct len; [reflexivity|]. reflexivity.
+Qed.
+
+Lemma bits_of_skipn_slice buf pos len :
+  slice (bits_of buf) pos len = slice (bits_of (skipn (pos / 8) buf)) (pos mod 8) len.
+Proof.
+  pose proof (Nat.div_mod pos 8 ltac:(discriminate)) as D.
+  generalize dependent (pos mod 8)%nat. generalize (pos / 8)%nat. intros q r D. subst pos.
+  rewrite <- (firstn_skipn q buf) at 1. rewrite bits_of_app.
+  destruct (Nat.le_gt_cases q (length buf)) as [Hle|Hgt].
+  - replace (8 * q + r)%nat with (length (bits_of (firstn q buf)) + r)%nat
+      by (rewrite bits_of_length, firstn_length_le by exact Hle; reflexivity).
+    apply slice_app_r.
+  - rewrite firstn_all2, skipn_all2 by lia. rewrite app_nil_r.
+    unfold slice. rewrite skipn_all2 by (rewrite bits_of_length; lia).
+    change (bits_of []) with (@nil bool). destruct r, len; reflexivity.
+Qed.
+
+Lemma getu_eq buf pos len : getu buf pos len = get_u buf pos len.
+Proof.
+  unfold getu. destruct (Nat.leb_spec (pos + len) (8 * length buf)) as [Hr|Hr]; [|reflexivity].
+  rewrite get_u_spec_wrap by exact Hr. do 3 f_equal.
+  rewrite (bits_of_skipn_slice buf pos len).
+  set (rest := skipn (pos / 8) buf). set (r := (pos mod 8)%nat).
+  symmetry. rewrite <- (firstn_skipn (S (S (len / 8))) rest) at 1. rewrite bits_of_app.
+  apply slice_app_l. rewrite bits_of_length.
+  assert (Hr8 : (r < 8)%nat) by (apply Nat.mod_upper_bound; discriminate).
+  assert (Hl8 : (len < 8 * S (len / 8))%nat) by (pose proof (Nat.div_mod len 8); pose proof (Nat.mod_upper_bound len 8); lia).
+  destruct (Nat.le_gt_cases (S (S (len / 8))) (length rest)) as [Hle|Hgt].
+  - rewrite firstn_length_le by exact Hle. lia.
+  - rewrite firstn_all2 by lia. unfold rest. rewrite skipn_length.
+    pose proof (Nat.div_mod pos 8 ltac:(discriminate)) as D. fold r in D. lia.
+Qed.
+
+Lemma get_s_gen_ext g1 g2 : (forall b p l, g1 b p l = g2 b p l) ->
+  forall b p l, get_s_gen g1 b p l = get_s_gen g2 b p l.
+Proof. intros E b p l. unfold get_s_gen. rewrite !E. reflexivity. Qed.
+
+Lemma gets_eq buf pos len : gets buf pos len = get_s buf pos len.
+Proof. apply get_s_gen_ext. exact getu_eq. Qed.
